@@ -174,6 +174,19 @@ func (e *Engine) verifyFuncGroup(fn *ssa.Function, spec *FuncSpec, prop, group s
 	}
 	x.pushFrame(st, fn, args, nil)
 	x.runBlock(st, fn.Blocks[0], nil)
+	// return-reachability probes: up to 8 return paths, evenly spread over the explored ones
+	// (the first paths of a depth-first exploration are often the infeasible corner cases)
+	if n := len(x.retCovers); n > 0 {
+		k := 8
+		if n < k {
+			k = n
+		}
+		e.mu.Lock()
+		for i := 0; i < k; i++ {
+			e.obligations = append(e.obligations, x.retCovers[i*n/k])
+		}
+		e.mu.Unlock()
+	}
 	if x.retCount == 0 && !spec.Trusted {
 		e.note("%s: no return path was reached", x.qname)
 	}
@@ -311,13 +324,10 @@ func (x *Exec) checkPost(st *State, ret *ssa.Return, rs []Val) {
 	env := &Env{x: x, st: st, heap: st.heap, old: x.oldHeap, vars: vars, ovars: ov, pkg: x.specPkg(x.spec)}
 	// vacuity guard: the first return paths are probed for satisfiability; a function none of
 	// whose probed return paths is satisfiable proves nothing (contradictory assumptions)
-	if x.primary && x.pure == 0 && !st.dead && x.nReturnCovers < 3 {
-		x.nReturnCovers++
+	if x.primary && x.pure == 0 && !st.dead && len(x.retCovers) < 400 {
 		cov := &Obligation{Name: x.qname + "/cover-return", Func: x.qname, Kind: "cover", Text: "a return of the function is reachable under the assumptions made", Mode: x.e.ar.Mode,
 			Goal: False, Assume: st.pc[:len(st.pc):len(st.pc)], Cover: true, Path: strings.Join(st.trace, ">")}
-		x.e.mu.Lock()
-		x.e.obligations = append(x.e.obligations, cov)
-		x.e.mu.Unlock()
+		x.retCovers = append(x.retCovers, cov)
 	}
 	for _, c := range x.spec.Ensures {
 		if !x.wantClause(c) || !x.active(c) || (c.group() == "" && !x.primary) {
@@ -719,9 +729,18 @@ func (x *Exec) havocLoc(st *State, loc assignLoc) {
 		if loc.kind == "cell" || loc.kind == "global" {
 			x.fail("conditional assigns of local cells / globals unsupported")
 		}
-		before := copyHeap(st.heap)
 		l2 := loc
 		l2.guard = nil
+		// make sure every heap map the location lives in has a current version (maps are created lazily)
+		probe := x.cloneState(st)
+		x.havocLoc(probe, l2)
+		for n, v := range probe.heap {
+			if _, ok := st.heap[n]; !ok {
+				st.heap[n] = heapInit(n, v.S)
+			}
+		}
+		x.dropState(probe)
+		before := copyHeap(st.heap)
 		x.havocLoc(st, l2)
 		var names []string
 		for n := range st.heap {
@@ -768,7 +787,8 @@ func (x *Exec) havocLoc(st *State, loc assignLoc) {
 	case "field":
 		s := loc.sty.Underlying().(*types.Struct)
 		ft := s.Field(loc.field).Type()
-		v := x.freshVal(st, ft, "hf_"+s.Field(loc.field).Name())
+		v := x.freshResult(st, ft, "hf_"+s.Field(loc.field).Name())
+		x.markAllocated(st, ft, v)
 		st.storeField(loc.sty, loc.field, loc.ref, v)
 	case "object":
 		s := loc.sty.Underlying().(*types.Struct)
@@ -777,7 +797,8 @@ func (x *Exec) havocLoc(st *State, loc assignLoc) {
 				x.havocLoc(st, assignLoc{kind: "object", sty: s.Field(i).Type(), ref: e.subRef(loc.sty, i, loc.ref)})
 				continue
 			}
-			v := x.freshVal(st, s.Field(i).Type(), "ho_"+s.Field(i).Name())
+			v := x.freshResult(st, s.Field(i).Type(), "ho_"+s.Field(i).Name())
+			x.markAllocated(st, s.Field(i).Type(), v)
 			st.storeField(loc.sty, i, loc.ref, v)
 		}
 	case "ghost":
@@ -785,7 +806,8 @@ func (x *Exec) havocLoc(st *State, loc assignLoc) {
 		if t == nil {
 			x.fail("undeclared ghost field %s", loc.text)
 		}
-		v := x.freshVal(st, t, "gh_"+loc.text[1:])
+		v := x.freshResult(st, t, "gh_"+loc.text[1:])
+		x.markAllocated(st, t, v)
 		ls := e.leaves(t)
 		ts := e.toLeaves(t, v)
 		for i, l := range ls {
@@ -794,7 +816,8 @@ func (x *Exec) havocLoc(st *State, loc assignLoc) {
 		}
 	case "cell":
 		c := st.cells[*loc.cell.Cell]
-		nv := x.freshVal(st, loc.elemT, "hc")
+		nv := x.freshResult(st, loc.elemT, "hc")
+		x.markAllocated(st, loc.elemT, nv)
 		st.cells[*loc.cell.Cell] = setPath(c, loc.cell.Path, nv)
 	case "global":
 		// mutable globals are re-read as unknown
